@@ -31,7 +31,7 @@ var genFI = rapid.Custom(func(t *rapid.T) *FI {
 	name := rapid.OneOf(rapid.StringMatching(`[a-zA-Z0-9_./ -]{1,12}`),
 		rapid.StringMatching(`[a-z%@+\\"'#:*?!~$&()é-]{1,8}`),
 		rapid.SampledFrom([]string{"100%.txt", "%s", "%d%%", "a%!b", "@@ -1 +1 @@", "--- x", "+++", "a b c", "ü/ñ.go", "\\n", "x\ty"[:1]}),
-		rapid.SampledFrom(quotedNames), genQuoted)
+		rapid.SampledFrom(quotedNames), genQuoted, rapid.Just(""))
 	tm := func(label string) (int64, int, int) {
 		if rapid.IntRange(0, 3).Draw(t, label+"zero") == 0 {
 			return -1, 0, 0
